@@ -103,12 +103,14 @@ struct Tok
     std::string_view sv() const { return std::string_view(p, n); }
 };
 
-template<int TermIdx>
+// ONE functor type for every typed/custom term of the fleet, distinguished only by its state: a library that picks
+// a term's functor by type instead of by term would call the wrong object
 struct TokFtor
 {
+    int term;
     Tok operator()(std::string_view sv) const
     {
-        simrt::termf(TermIdx, sv.data(), int64_t(sv.size()));
+        simrt::termf(term, sv.data(), int64_t(sv.size()));
         return Tok{ sv.data(), sv.size() };
     }
 };
